@@ -55,7 +55,8 @@ class C12(Prop):
             "per case) is used as the start of get_hwires/get_hcables with selection ALL, and every "
             "hierarchical pin with INSIDE/OUTSIDE/BOTH, and every hierarchical wire for get_hpins; "
             "oracle = independent union-find elaboration over (path, wire) joined across instance port "
-            "boundaries. non-trivial = some net spans >=2 hierarchical wires (crosses a port boundary); "
+            "boundaries; optionally further connect/disconnect edits and a second full tracing round while all "
+            "references of the first round are kept alive. non-trivial = some net spans >=2 hierarchical wires (crosses a port boundary); "
             "distinct = distinct recipe JSON")
     ASSUMPTIONS = ["the top instance is not itself a child (its outer pins are unconnected)",
                    "BOTH is taken as the union of INSIDE and OUTSIDE"]
@@ -76,6 +77,7 @@ class C12(Prop):
         return st.fixed_dictionaries({"design": gen_ir.recipes(self.cfg(tier)),
                                       "sample": st.integers(0, 1000),
                                       "edits": st.one_of(st.just([]), st.lists(edit, max_size=3)),
+                                      "edits2": st.one_of(st.just([]), st.lists(edit, min_size=1, max_size=2)),
                                       "pre": st.sampled_from(["none", "none", "none", "clone", "uniquify",
                                                               "clone+uniquify", "flatten"])})
 
@@ -104,9 +106,22 @@ class C12(Prop):
                 nl = pre_transform(nl, case.get("pre", "none"), res)
                 if nl is None:
                     return res
+        # every hierarchical reference handed out stays alive until the case ends, so that anything the
+        # library remembers per reference between queries is still there when the netlist has changed
+        self._alive = []
+        self.trace(res, nl, case, case.get("edits") or [], "")
+        if case.get("edits2") and not res.violations:
+            res.label("traced-again-after-further-edits")
+            self.trace(res, nl, case, case["edits2"], ":after-further-edits")
+        self._alive = []
+        return res
+
+    def trace(self, res, nl, case, edits, tag2):
+        import spydrnet as sdn
+
         # connections made and cut through the public API (registered pins or (instance, inner pin)
         # proxies) before tracing: the property speaks of all netlists, not only freshly built ones
-        for e in case.get("edits") or []:
+        for e in edits:
             ops_ = [(I, op) for L in nl.libraries for D in L.definitions for I in D.children
                     for op in I.pins.values()]
             if not ops_:
@@ -141,7 +156,7 @@ class C12(Prop):
             res.label("paths>300")
             return res
         M.connectivity()
-        if any(len(g) >= 2 for g in M.groups.values()):
+        if any(len(g) >= 2 for g in M.groups.values()) and not tag2:
             res.nontrivial = True
         if any(len({n[0] for n in g}) >= 3 for g in M.groups.values()):
             res.label("net-on>=3-hierarchical-instances")
@@ -155,8 +170,12 @@ class C12(Prop):
             return {key(M.wire_nodes[n]) for n in nodes}
 
         def check(tag, fn, start_seq, selection, want_keys):
+            tag = tag + tag2
             try:
-                got = list(fn(href(start_seq), selection=selection))
+                start = href(start_seq)
+                got = list(fn(start, selection=selection))
+                self._alive.append(start)
+                self._alive.extend(got)
             except Exception as e:  # noqa
                 res.violate("C12:%s:raises:%s" % (tag, type(e).__name__), repr(e))
                 return
@@ -207,12 +226,14 @@ class C12(Prop):
                 elif x.port is not None and x.port.definition is here:
                     wantp.add(key(p + (x.port, x)))
             try:
-                got = [key(seq_of(h)) for h in sdn.get_hpins(href(seq))]
+                hp = list(sdn.get_hpins(href(seq)))
+                self._alive.extend(hp)
+                got = [key(seq_of(h)) for h in hp]
             except Exception as e:  # noqa
-                res.violate("C12:get_hpins:hwire:raises:%s" % type(e).__name__, repr(e))
+                res.violate("C12:get_hpins:hwire%s:raises:%s" % (tag2, type(e).__name__), repr(e))
                 got = None
             if got is not None and (set(got) != wantp or len(got) != len(set(got))):
-                res.violate("C12:get_hpins:hwire:%s" % (
+                res.violate(("C12:get_hpins:hwire%s:" % tag2) + "%s" % (
                     "missing" if wantp - set(got) else ("extra" if set(got) - wantp else "duplicate")),
                     "%d returned, %d expected" % (len(got), len(wantp)))
         if only_inst:
